@@ -1151,6 +1151,8 @@ type parent struct {
 	nSingle int64
 	sem     chan struct{} // bounds the isolated re-runs running beside the batch workers
 	pending sync.WaitGroup
+	nViol   int64
+	stopped int32
 }
 
 func (p *parent) harness(format string, args ...interface{}) {
@@ -1163,7 +1165,15 @@ func (p *parent) set(i, st int, msg string) {
 	p.mu.Lock()
 	p.results[i] = result{st, msg}
 	p.mu.Unlock()
+	if st == stViol {
+		atomic.AddInt64(&p.nViol, 1)
+	}
 }
+
+// stopEarly: once this many inputs have been confirmed as violations the verdict is settled;
+// the remaining inputs are not run (each wedging input costs a 10 s step timeout) and the
+// report says exhaustive=false.
+const stopAfterViolations = 80
 
 func unquote(s string) string {
 	if u, err := strconv.Unquote(s); err == nil {
@@ -1294,6 +1304,10 @@ func (p *parent) confirmNow(idx int, observed string) {
 func (p *parent) processChunk(s, e int) {
 	cur, setupFails := s, 0
 	for cur < e {
+		if atomic.LoadInt64(&p.nViol) >= stopAfterViolations {
+			atomic.StoreInt32(&p.stopped, 1)
+			return
+		}
 		o := p.runChild(cur, e, batchTimeout)
 		for _, i := range o.ok {
 			p.set(i, stOK, "")
@@ -1566,7 +1580,7 @@ func TestC10(t *testing.T) {
 	p.pending.Wait()
 
 	for i, r := range p.results {
-		if r.state == stUnknown && len(p.harn) == 0 {
+		if r.state == stUnknown && len(p.harn) == 0 && atomic.LoadInt32(&p.stopped) == 0 {
 			p.harn = append(p.harn, fmt.Sprintf("input %d [%s] was never decided", i, inputs[i].describe()))
 		}
 	}
@@ -1588,8 +1602,15 @@ func TestC10(t *testing.T) {
 	var viols []viol
 	classCount := map[string]int{}
 	classFirst := map[string]string{}
+	if atomic.LoadInt32(&p.stopped) == 1 {
+		exhaustive = false
+		c.Extra("stopped_early", fmt.Sprintf("after %d confirmed violations; inputs not run are not counted", atomic.LoadInt64(&p.nViol)))
+	}
 	for i, r := range p.results {
 		in := inputs[i]
+		if r.state == stUnknown && atomic.LoadInt32(&p.stopped) == 1 {
+			continue
+		}
 		c.Case(in.key(), true, in.Target+"/"+in.Kind)
 		c.Sample(map[string]interface{}{"target": in.Target, "kind": in.Kind, "input": in.describe()})
 		if r.state != stViol {
